@@ -17,18 +17,18 @@ typedef struct { void (*fn)(res_t *); const char *func; int pos; const char *par
 extern const null_case_t NULL_CASES[]; extern const int N_NULL_CASES; extern const char *NULL_UNSUPPORTED;
 
 enum { SNAP_STR, SNAP_MBUFF, SNAP_CSTR, SNAP_LIST };
-typedef struct { int kind; long len; unsigned char bytes[64]; void *buf; } snap_t;
+typedef struct { int kind; long len, size; unsigned char bytes[64]; void *buf; } snap_t;
 static void snap_take(snap_t *s, void *o, int kind)
 {
     memset(s, 0, sizeof *s); s->kind = kind;
     switch (kind) {
-    case SNAP_STR: { spif_str_t x = (spif_str_t) o; s->len = x->len; s->buf = x->s; if (x->s) memcpy(s->bytes, x->s, (size_t) (x->len < 63 ? x->len : 63)); break; }
-    case SNAP_MBUFF: { spif_mbuff_t x = (spif_mbuff_t) o; s->len = x->len; s->buf = x->buff; if (x->buff) memcpy(s->bytes, x->buff, (size_t) (x->len < 63 ? x->len : 63)); break; }
+    case SNAP_STR: { spif_str_t x = (spif_str_t) o; s->len = x->len; s->size = x->size; s->buf = x->s; if (x->s) memcpy(s->bytes, x->s, (size_t) (x->len < 63 ? x->len : 63)); break; }
+    case SNAP_MBUFF: { spif_mbuff_t x = (spif_mbuff_t) o; s->len = x->len; s->size = x->size; s->buf = x->buff; if (x->buff) memcpy(s->bytes, x->buff, (size_t) (x->len < 63 ? x->len : 63)); break; }
     case SNAP_CSTR: s->len = (long) strlen((char *) o); memcpy(s->bytes, o, (size_t) (s->len < 63 ? s->len : 63)); break;
     case SNAP_LIST: s->len = (long) SPIF_LIST_COUNT((spif_list_t) o); break;
     }
 }
-static int snap_same(snap_t *s, void *o) { snap_t n; snap_take(&n, o, s->kind); return n.len == s->len && n.buf == s->buf && !memcmp(n.bytes, s->bytes, sizeof n.bytes); }
+static int snap_same(snap_t *s, void *o) { snap_t n; snap_take(&n, o, s->kind); return n.len == s->len && n.size == s->size && n.buf == s->buf && !memcmp(n.bytes, s->bytes, sizeof n.bytes); }
 
 static spif_list_t g_lists[3];
 static regex_t *g_rexp;
@@ -39,6 +39,7 @@ static spif_list_t mk_list(int fam)
     SPIF_LIST_APPEND(l, SPIF_OBJ(spif_str_new_from_ptr((spif_charptr_t) "a"))); SPIF_LIST_APPEND(l, SPIF_OBJ(spif_str_new_from_ptr((spif_charptr_t) "b")));
     return l;
 }
+static spif_list_t mk_elist(int fam) { return fam == 0 ? SPIF_LIST_NEW(array) : (fam == 1 ? SPIF_LIST_NEW(linked_list) : SPIF_LIST_NEW(dlinked_list)); }
 static spif_linked_list_item_t mk_ll_item(void) { spif_linked_list_item_t i = calloc(1, sizeof(*i)); return i; }
 static spif_dlinked_list_item_t mk_dl_item(void) { spif_dlinked_list_item_t i = calloc(1, sizeof(*i)); return i; }
 static spif_charptr_t *mk_strarray(void) { spif_charptr_t *a = calloc(3, sizeof *a); a[0] = (spif_charptr_t) mc_heapstr("x"); a[1] = (spif_charptr_t) mc_heapstr("y"); return a; }
